@@ -24,8 +24,8 @@ def run(rep):
                 'Non-trivial = walk with at least one face crossing.')
     rep.assumptions = ['per-step displacement < half a cell in every coordinate', 'FFT-based MSD compared to relative 1e-8 of the largest row entry',
                        'scipy.constants.angstrom used by alpha; total_time = n_frames * time_step as in the property']
-    r = core.model_check('MC_Metrics', mc_cfg(5 if quick else 7, ['MsdLagZero', 'ScaleLaw']), workers=8, timeout=2400)
-    rep.add_model('MC_Metrics (MsdLagZero, ScaleLaw)', r)
+    r = core.model_check('MC_Metrics', mc_cfg(5 if quick else 7, ['MsdLagZero', 'ScaleLaw', 'LinearMsd', 'MsdPerAtom']), workers=8, timeout=2400)
+    rep.add_model('MC_Metrics (MsdLagZero, ScaleLaw, LinearMsd, MsdPerAtom)', r)
     rng = np.random.default_rng(rep.seed + 6)
     fams = list(gen.FAMILIES)
     n = 60 if quick else 1200
@@ -95,3 +95,62 @@ def run(rep):
                         'expected_msd_num_atom0': e['msd'][0][:6]})
     rep.traces += len(trajs)
     rep.extra['analysed_again_after_extend'] = len(pieces)
+    scale_cases(rep, rng, exp, recs, trajs, 3_200_000 if quick else 9_000_000)
+
+
+def scale_cases(rep, rng, exp, recs, trajs, size):
+    """C06 at a scale no enumeration reaches (atoms x frames beyond `size`), two ways, both resting on lemmas TLC checks on the
+    small model: (a) MsdPerAtom -- a TLC-judged small walk repeated over very many atoms must give the judged rows for every copy;
+    (b) LinearMsd -- atoms in uniform motion over very many frames must give tau^2 |v|^2 (tolerance 1e-10 sum_t |r(t)|^2 / (T - tau):
+    thirty times the measured double-precision round-off of the FFT algorithm, six hundred times below single precision)."""
+    from .. import metrics_drive as md
+    N = md.N
+    # (a) many atoms
+    b = next(i for i, (t, w) in enumerate(trajs) if w.shape[0] >= 16 and i < len(exp))
+    w, e = trajs[b][1], exp[b]
+    T, A, _ = w.shape
+    K = -(-size // (T * A))
+    big, G = md.build(rng, 'tric', 'rot', np.tile(w, (1, K, 1)), ['Li'] * (A * K))
+    ebig = core.run_oracle('TraceMetrics', [{'b': 0, 'G': G, 'w': w.tolist(), 'm': [1] * A, 'speeds': [], 'parts': [], 'want': {'msd': True}}], timeout=600)[0]
+    msd = np.asarray(big.mean_squared_displacement())
+    rep.evaluations += 1
+    rep.nontrivial += 1
+    if msd.shape != (A * K, T):
+        rep.violation({'kind': 'scale', 'clause': 'result-shape-many-atoms', 'detail': [list(msd.shape), [A * K, T]]})
+    else:
+        expm = np.array([[ebig['msd'][a][tau] / (N ** 2 * (T - tau)) for tau in range(T)] for a in range(A)])
+        scale = np.maximum(1.0, expm.max(axis=1, keepdims=True))
+        dev = np.abs(msd.reshape(K, A, T) - expm[None]) / scale[None]
+        if not np.isfinite(dev).all() or dev.max() > 1e-9:
+            k, a, tau = np.unravel_index(np.nanargmax(dev), dev.shape)
+            rep.violation({'kind': 'scale', 'clause': 'msd-many-atoms', 'atoms': A * K, 'frames': T, 'atom': int(k * A + a), 'lag': int(tau),
+                           'observed': float(msd[k * A + a, tau]), 'expected': float(expm[a, tau])})
+    del big, msd
+    # (b) many frames, uniform motion
+    A2 = 64
+    T2 = -(-size // A2)
+    v = rng.integers(-7, 8, size=(A2, 3))
+    v[np.all(v == 0, axis=1)] = [1, -2, 3]
+    wl = np.arange(T2)[:, None, None] * v[None]
+    lin, G = md.build(rng, 'hex', 'pmg', wl, ['Li'] * A2)
+    Gm = np.array(G, dtype=float)
+    q = np.einsum('ai,ij,aj->a', v, Gm, v) / N ** 2                 # |v|^2 in Angstrom^2
+    msd = np.asarray(lin.mean_squared_displacement())
+    rep.evaluations += 1
+    rep.nontrivial += 1
+    if msd.shape != (A2, T2):
+        rep.violation({'kind': 'scale', 'clause': 'result-shape-many-frames', 'detail': [list(msd.shape), [A2, T2]]})
+    else:
+        tau = np.arange(T2, dtype=float)
+        expm = q[:, None] * tau[None] ** 2
+        # round-off of the FFT / running-sum algorithm is proportional to sum_t |r(t)|^2 and is divided by the number of time origins
+        # T - tau: measured 3e-12 of that in double precision at 50 000 frames, at least 6e-8 in single precision
+        sum_r2 = q * ((T2 - 1) * T2 * (2 * T2 - 1) / 6.0)
+        tol = 1e-10 * sum_r2[:, None] / (T2 - tau[None]) + 1e-9
+        dev = np.abs(msd - expm) / tol
+        rep.extra['scale_many_frames_worst_deviation_over_tolerance'] = float(np.nanmax(dev))
+        if not np.isfinite(dev).all() or dev.max() > 1:
+            a, t_ = np.unravel_index(np.nanargmax(dev), dev.shape)
+            rep.violation({'kind': 'scale', 'clause': 'msd-many-frames-uniform-motion', 'atoms': A2, 'frames': T2, 'atom': int(a), 'lag': int(t_),
+                           'observed': float(msd[a, t_]), 'expected': float(expm[a, t_]), 'tolerance': float(tol[a, 0])})
+    rep.extra['scale'] = {'many_atoms': [A * K, T], 'many_frames': [A2, T2]}
